@@ -2,6 +2,7 @@ package main
 
 import (
 	"fmt"
+	"strings"
 	"sync"
 
 	"verif/simrt"
@@ -125,7 +126,16 @@ func initLibraryErrors() {
 
 // plannedError is what a failing user function returns: mostly a harness error, for every
 // third failing call an error value of the library's own runtime error types.
+// errList is an error whose dynamic type is not comparable (a slice): code that compares
+// error values with == panics on it.
+type errList []string
+
+func (e errList) Error() string { return "planned failure " + strings.Join(e, ",") }
+
 func plannedError(r *Recorder, f, i int) error {
+	if i%3 == 1 && !r.LibErr {
+		return errList{funcNames[f], "uncomparable"}
+	}
 	if len(libraryErrors) > 0 && (r.LibErr || i%3 == 2) {
 		return libraryErrors[(f+i)%len(libraryErrors)]
 	}
